@@ -106,6 +106,20 @@ def mirror(in_rel, out_rel, path):
     return posixpath.normpath(posixpath.join(out_rel, posixpath.relpath(path, in_rel)))
 
 
+class FailingWriter(io.StringIO):
+    """A caller-supplied text writer whose n-th write() raises (disk full on the caller's side of the stream API)."""
+
+    def __init__(self, nth):
+        super().__init__()
+        self._left = nth
+
+    def write(self, s):
+        if self._left <= 0:
+            raise OSError(28, "No space left on device (caller's writer)")
+        self._left -= 1
+        return super().write(s)
+
+
 class ShortReadStringIO(io.StringIO):
     """A text reader whose read(n) returns at most k characters per call (legal for any io reader); readline,
     readlines and iteration behave normally."""
@@ -163,11 +177,18 @@ def run_step(fs, proc, step, hist):
                         fa.anonymize_file(src, dst)
                     else:
                         text = _decode_universal(bytes(fs.files[src]))
-                        o_io = io.StringIO()
+                        wf = next((f for f in fs.faults if f["kind"] == "io_write_fail" and f.get("path") == rel), None)
+                        o_io = FailingWriter(wf["nth"]) if wf else io.StringIO()
                         k = (fs.knobs or {}).get("max_read")
-                        fa.anonymize_io(ShortReadStringIO(text, k) if k else io.StringIO(text), o_io)
-                        fs.files[dst] = bytearray(o_io.getvalue().encode("utf-8"))
-                        fs.handed[dst] = [o_io.getvalue()]
+                        try:
+                            fa.anonymize_io(ShortReadStringIO(text, k) if k else io.StringIO(text), o_io)
+                        except OSError:
+                            if wf:
+                                fs._fire(wf)
+                            raise
+                        finally:
+                            fs.files[dst] = bytearray(o_io.getvalue().encode("utf-8"))
+                            fs.handed[dst] = [o_io.getvalue()]
                 except Exception as e:
                     rec["failed_files"][rel] = type(e).__name__
             if dump is not None and getattr(fa, "anonymizer4", None) is not None:
